@@ -253,6 +253,29 @@ func c10backpressure(c *Check, rng *rand.Rand) {
 		wg.Wait()
 		env.Barrier()
 		time.Sleep(100 * time.Millisecond)
+		lost := ep%2 == 1
+		if lost {
+			// the stalled connection is lost with the parked requests still unsent; the
+			// connection the proxy dials next stalls as well, so that it has to park again
+			// (in buffers that were in use a moment ago), and is then drained slowly
+			victim.KillConns()
+			env.Barrier()
+			for ci, cl := range clients {
+				wg.Add(1)
+				go func(ci int, cl *Client) {
+					defer wg.Done()
+					val := strings.Repeat("z", 60000)
+					for seq := 100; seq < 140; seq++ {
+						slot := slots[0] + (ci*131+seq)%(slots[1]-slots[0]+1)
+						cl.Send(Req("SET", Key(slot, fmt.Sprintf("o%d.%d", base+ci, seq)), val))
+						sentN[ci]++
+					}
+				}(ci, cl)
+			}
+			wg.Wait()
+			env.Barrier()
+			time.Sleep(50 * time.Millisecond)
+		}
 		// wave 2 while the node drains slowly
 		victim.SetSlowRead(8192+rng.Intn(32768), time.Duration(100+rng.Intn(300))*time.Microsecond)
 		victim.SetPauseRead(false)
@@ -268,10 +291,17 @@ func c10backpressure(c *Check, rng *rand.Rand) {
 					for _, bc := range victim.Conns() {
 						n += len(bc.Requests())
 					}
+					if lost {
+						return n >= nclients*40
+					}
 					return n >= nclients*100
 				}
 				extra := 0
-				for seq := 100; seq < 6000 && extra < 300; seq++ {
+				first := 100
+				if lost {
+					first = 140
+				}
+				for seq := first; seq < 6000 && extra < 300; seq++ {
 					slot := slots[0] + (ci*131+seq)%(slots[1]-slots[0]+1)
 					cl.Send(Req("GET", Key(slot, fmt.Sprintf("o%d.%d", base+ci, seq))))
 					sentN[ci]++
